@@ -147,10 +147,15 @@ AddArgs(s, ts, from) ==
   ELSE IF s.posq = <<>> THEN SetRoles([s EXCEPT !.retargs = @ \o ts], from, Len(ts), "rest")
   ELSE LET h == Head(s.posq)
            ad == s.d.cmds[h.c].args[h.i]
-           cv == ConvScalar(ad.vtype, ad.base, Head(ts), s.ftab)
+           \* a map positional takes one key:value token (a token without a colon is a key with the empty value)
+           cv == IF ad.map THEN Okv(IF IndexOf(Head(ts), COLON) = 0 THEN Append(Head(ts), COLON) ELSE Head(ts))
+                 ELSE ConvScalar(ad.vtype, ad.base, Head(ts), s.ftab)
        IN IF cv.unspec THEN [s EXCEPT !.grey = TRUE, !.err = Err("foreign", E), !.nerr = @ + 1]
           ELSE IF ~cv.ok THEN [s EXCEPT !.err = Err("foreign", E), !.nerr = @ + 1]     \* raw conversion error, not a *flags.Error
-          ELSE AddArgs(SetRole([s EXCEPT !.pos[h.c][h.i] = IF ad.slice THEN Append(@, cv.v) ELSE <<cv.v>>,
+          ELSE AddArgs(SetRole([s EXCEPT !.pos[h.c][h.i] = IF ad.slice THEN Append(@, cv.v)
+                                                            \* a map keeps the entries of an earlier parse: this key is (re)bound; shown sorted
+                                                            ELSE IF ad.map THEN SortStrs(Append(SelectSeq(@, LAMBDA e : MapKey(e) # MapKey(cv.v)), cv.v))
+                                                            ELSE <<cv.v>>,
                                          !.posq = IF ad.slice THEN @ ELSE Tail(@)], from, "positional"),
                        Tail(ts), from + 1)
 
